@@ -37,7 +37,7 @@ ASSUMPTIONS = [
 ]
 MANDATORY = ["op:set-new", "op:set-replace", "op:reject", "op:del", "op:rename_ds", "op:rename_var", "op:dims", "op:set_axis", "op:axes_set",
              "op:axes_set_int", "op:axes_set_renamed", "op:label", "op:append", "op:rename_keys", "op:rename_axes", "rename_axes:callable", "set_axis:callable-mixed-result-types", "op:copy", "op:derive",
-             "start:constructed", "reject-after-accept", "replace-changes-dims", "axis-change-with-2-users", "reject:new-dim-first", "dims:permute-existing", "reject:truncated-labels"]
+             "start:constructed", "reject-after-accept", "replace-changes-dims", "axis-change-with-2-users", "reject:new-dim-first", "dims:permute-existing", "reject:truncated-labels", "reject:near-miss-labels"]
 
 NAMES = ["x", "y", "z", "w"]
 FRESH = ["p", "q", "a", "s", "u", "b", "g", "h"]        # ("a", "b" are also variable keys: a key may equal the name of a dimension)
@@ -187,6 +187,11 @@ def run_case(case):
                 if trunc is not None and c % 3 == 2 and trunc != list(old) and len(set(trunc)) == len(trunc):
                     labs[j] = trunc                                         # int labels that are the truncated float labels
                     cl.add("reject:truncated-labels")
+                elif c % 5 == 4 and all(isinstance(x, (int, float)) and not isinstance(x, bool) for x in old) and any(x for x in old):
+                    # numerical labels that differ from the dataset's in the sixth significant digit of ONE label only
+                    jj = [i_ for i_, x in enumerate(old) if x][e % len([x for x in old if x])]
+                    labs[j] = [float(x) * (1 + 3e-6) if i_ == jj else x for i_, x in enumerate(old)]
+                    cl.add("reject:near-miss-labels")
                 elif len(old) > 1 and c % 2:
                     labs[j] = old[::-1]                                     # same labels, other order
                 else:
